@@ -122,7 +122,7 @@ impl Op {
             }
             Op::Mask(s, x, y, mw, mh, data) => {
                 o.set("at", J::s(&format!("{},{}", x, y)));
-                o.set("mask", J::s(&format!("{}x{} {:?}", mw, mh, data)));
+                o.set("mask", J::s(&format!("{}x{} {:?}{}", mw, mh, &data[..data.len().min(64)], if data.len() > 64 { " ... (regenerated from the seed on replay)" } else { "" })));
                 o.set("source", s.desc());
             }
             Op::DrawImageAt(x, y, img, d) => {
